@@ -41,7 +41,11 @@ Deviations == {"NoProbe",            \* _get_conn skips is_connection_dropped / 
                "NoCloseOnUnclean",   \* _error_catcher does not close the connection on unclean exit
                "NoDiscardOnError",   \* urlopen does not discard the connection after ProtocolError
                "RawNotReady",        \* HTTPException missing from urlopen's except tuple
-               "ReleaseClosesUnread" \* (candidate fix) release_conn closes a connection whose body is unread
+               "ReleaseKeepsUnread", \* (historical, S4) release_conn pools a connection whose body is unread
+               "AbandonedStreamLooksClean",  \* read_chunked: GeneratorExit at the yield closes the http.client
+                                     \* response and returns normally instead of an unclean _error_catcher exit
+               "Read1AskedIsRead"    \* _raw_read(read1): response closed when the caller ASKED for all that was
+                                     \* left (amt >= length_remaining), not only when that much was returned
               }
 MaxSock == NReq * (Retries + 1)
 Socks == 1..MaxSock
@@ -107,7 +111,7 @@ IsHead(u) == u.k \in {"head", "bhead"}
 HeadFr(u) == IF u.t = "r" /\ u.k = "head" THEN plan[u.r].fr ELSE "cl"
 HeadLeft(u) == IF u.t = "r" /\ u.k = "head" THEN (IF plan[u.r].fr = "bodyless" THEN 0 ELSE plan[u.r].len) ELSE 2
 HeadWillClose(u) == u.t = "r" /\ u.k = "head" /\ (plan[u.r].fr = "close" \/ ~plan[u.r].ka)
-ChunkShaped(u) == u.t = "r" /\ u.k \in {"cell", "term"} /\ plan[u.r].fr = "chunked"
+ChunkShaped(u) == u.t = "r" /\ u.k \in {"cell", "term", "bhead"} /\ plan[u.r].fr = "chunked"
 
 (* ---- buffered reading: reader buffer first, then raw reads from the kernel ---- *)
 RECURSIVE Pull(_, _, _, _, _)
@@ -152,6 +156,29 @@ ReadStep(q, k, pe, want) ==
             IF p.stop = "ok" THEN [q |-> [q EXCEPT !.rb = p.rb], kb |-> p.kb, got |-> p.got, res |-> "ok"]
             ELSE IF p.stop = "term" THEN [q |-> [q EXCEPT !.rb = p.rb, !.st = "closed"], kb |-> p.kb, got |-> p.got, res |-> "ok"]
             ELSE [q |-> [q EXCEPT !.rb = p.rb, !.st = "closed"], kb |-> p.kb, got |-> <<>>, res |-> "err"]
+
+\* one urllib3 read1(big) = _raw_read(big, read1=True): whatever the reader already holds, else ONE raw read
+Read1Step(q, k, pe) ==
+    CASE q.st # "open" ->
+            IF q.st = "closed" /\ q.fr = "cl" /\ q.left > 0                \* closed short of Content-Length
+            THEN [q |-> q, kb |-> k, got |-> <<>>, res |-> "err"]           \* -> IncompleteRead
+            ELSE [q |-> q, kb |-> k, got |-> <<>>, res |-> "ok"]
+      [] q.fr = "bodyless" -> [q |-> [q EXCEPT !.st = "closed"], kb |-> k, got |-> <<>>, res |-> "ok"]
+      [] q.fr = "chunked" -> ReadStep(q, k, pe, 1)                           \* _read1_chunked: at most one chunk
+      [] OTHER ->
+            LET have == q.rb # <<>> \/ k # <<>>
+                rb1 == IF q.rb # <<>> THEN q.rb ELSE IF Seg = "slurp" THEN k ELSE <<Head(k)>>
+                kb1 == IF q.rb # <<>> THEN k ELSE IF Seg = "slurp" THEN <<>> ELSE Tail(k)
+                n == IF q.fr = "cl" THEN Min(q.left, Len(rb1)) ELSE Len(rb1)
+                left1 == IF q.fr = "cl" THEN q.left - n ELSE q.left
+            IN IF have
+               THEN [q |-> [q EXCEPT !.rb = SubSeq(rb1, n + 1, Len(rb1)), !.left = left1,
+                                     !.st = IF q.fr = "cl" /\ (left1 = 0 \/ "Read1AskedIsRead" \in Dev)
+                                            THEN "closed" ELSE "open"],
+                     kb |-> kb1, got |-> SubSeq(rb1, 1, n), res |-> "ok"]
+               ELSE IF pe /\ q.fr = "close"
+               THEN [q |-> [q EXCEPT !.st = "closed"], kb |-> k, got |-> <<>>, res |-> "ok"]
+               ELSE [q |-> [q EXCEPT !.st = "closed"], kb |-> k, got |-> <<>>, res |-> "err"]
 
 (* ---- pool / connection primitives (functions on the net state, composed inside actions) ---- *)
 \* conn.close(): the socket goes away, http.client forgets and closes its registered response
@@ -327,11 +354,43 @@ Drain == /\ pc = "op" /\ ops[cur].kind = "drain"
 ToRelease(x) == IF x.res = "ok" THEN "release" ELSE "drop"
 ReadBody == /\ pc = "op" /\ ops[cur].kind = "readk" /\ ReadOp(ops[cur].k, ToRelease, FALSE)
            /\ UNCHANGED <<nsock, peof, wh, nrq, cur, att, cs, plan, ops, arr, probes, outcome, yl, clean, hist>>
-\* stream(unit): one read step per iteration until the http.client response is closed
-ToStream(x) == IF x.res = "ok" /\ x.q.st = "open" THEN "op" ELSE "drop"
-StreamStep == /\ pc = "op" /\ ops[cur].kind = "stream" /\ ReadOp(1, ToStream, FALSE)
-                /\ UNCHANGED <<nsock, peof, wh, nrq, cur, att, cs, plan, ops, arr, probes, outcome, yl, clean, hist>>
-\* release_conn(): the connection goes back as it is
+\* stream(unit): one read step per iteration until the http.client response is closed; "streamk": the
+\* caller takes k pieces and then abandons the generator (break / gen.close() / garbage collection)
+ToStream(x) == IF x.res # "ok" THEN "drop"
+               ELSE IF x.q.st # "open" THEN (IF ops[cur].kind = "streamk" THEN "release" ELSE "drop")
+               ELSE IF ops[cur].kind = "streamk" /\ Len(resp[cur].deliv) + Len(x.got) >= ops[cur].k THEN "abandon"
+               ELSE "op"
+StreamStep == /\ pc = "op" /\ ops[cur].kind \in {"stream", "streamk"} /\ ReadOp(1, ToStream, FALSE)
+              /\ UNCHANGED <<nsock, peof, wh, nrq, cur, att, cs, plan, ops, arr, probes, outcome, yl, clean, hist>>
+\* GeneratorExit is thrown at the suspended yield.  read_chunked (chunked framing) is suspended INSIDE
+\* _error_catcher: a BaseException is an unclean exit -> the response and the connection are closed.
+\* stream() over read(amt) (other framings) is suspended outside any context: nothing happens.
+Abandon ==
+    /\ pc = "abandon"
+    /\ LET r == cur
+           s == resp[r].s
+           st0 == [Cur EXCEPT !.resp = [@ EXCEPT ![r].st = "closed", ![r].conn = FALSE]] IN
+       IF resp[r].fr # "chunked" \/ resp[r].st # "open" THEN UNCHANGED <<queue, cli, prior, resp>>
+       ELSE IF ~resp[r].conn THEN Commit(st0)
+       ELSE IF "AbandonedStreamLooksClean" \in Dev THEN Commit(PutIn(st0, s))     \* clean exit -> release_conn()
+       ELSE Commit(PutIn(CloseIn(st0, s), s))
+    /\ pc' = "release"
+    /\ UNCHANGED <<nsock, kb, peof, wh, nrq, cur, att, cs, plan, ops, bkv, hist>>
+\* read1(big) once then release_conn() / read1(big) in a loop until it returns nothing
+ToRead1(x) == IF x.res # "ok" THEN "drop"
+              ELSE IF ops[cur].kind = "read1loop" /\ x.got # <<>> THEN "op" ELSE "release"
+Read1 ==
+    /\ pc = "op" /\ ops[cur].kind \in {"read1", "read1loop"}
+    /\ LET r == cur
+           s == resp[r].s
+           x == Read1Step(resp[r], kb[s], peof[s]) IN
+       /\ kb' = [kb EXCEPT ![s] = x.kb]
+       /\ Commit(AfterRead(r, x))
+       /\ opres' = [opres EXCEPT ![r] = IF x.res = "ok" THEN "ok" ELSE "urllib3"]
+       /\ pc' = ToRead1(x)
+    /\ UNCHANGED <<nsock, peof, wh, nrq, cur, att, cs, plan, ops, arr, probes, outcome, yl, clean, hist>>
+\* release_conn(): a connection whose http.client response is not closed (body not read to the end) is
+\* closed before it goes back; otherwise it goes back as it is
 Release ==
     /\ \/ pc = "release"
        \/ pc = "op" /\ ops[cur].kind = "release"
@@ -339,7 +398,7 @@ Release ==
            s == resp[r].s
            st0 == [Cur EXCEPT !.resp = [@ EXCEPT ![r].conn = FALSE]] IN
        IF resp[r].conn
-       THEN IF "ReleaseClosesUnread" \in Dev /\ resp[r].st = "open"
+       THEN IF "ReleaseKeepsUnread" \notin Dev /\ resp[r].st = "open"
             THEN Commit(PutIn(CloseIn(st0, s), s))
             ELSE Commit(PutIn(st0, s))
        ELSE UNCHANGED <<queue, cli, prior, resp>>
@@ -406,7 +465,7 @@ Finish == pc = "done" /\ pc' = "end" /\ UNCHANGED <<netv, resp, cur, att, cs, pl
 Done == pc = "end" /\ UNCHANGED vars
 
 Next == \/ StartReq \/ Checkout \/ Send \/ Serve \/ RecvHead \/ Preload \/ Return \/ Fail \/ Raw
-        \/ ReadAll \/ Preloaded \/ Drain \/ ReadBody \/ StreamStep \/ Release \/ Close \/ Ignore
+        \/ ReadAll \/ Preloaded \/ Drain \/ ReadBody \/ StreamStep \/ Abandon \/ Read1 \/ Release \/ Close \/ Ignore
         \/ Drop \/ ServerStray \/ ServerEOF \/ NoAfter \/ NextReq \/ Finish \/ Done
 Spec == Init /\ [][Next]_vars
 
@@ -417,7 +476,7 @@ TypeOK ==
     /\ Len(queue) <= MaxSize /\ nsock <= MaxSock
     /\ \A i \in 1..Len(queue) : queue[i] \in 0..nsock
     /\ \A r \in Rids : resp[r].st \in {"none", "open", "closed"} /\ outcome[r] \in {"none", "response", "urllib3", "raw"}
-    /\ pc \in {"start", "checkout", "send", "serve", "recv", "preload", "return", "fail", "raw", "op", "release",
+    /\ pc \in {"start", "checkout", "send", "serve", "recv", "preload", "return", "fail", "raw", "op", "abandon", "release",
                "drop", "after", "next", "done", "end"}
 
 OnlyOwnBytes ==
@@ -436,11 +495,11 @@ NotPooledWhileHeld == \A r \in Rids : resp[r].conn => \A i \in 1..Len(queue) : q
 \* the request is answered on a fresh connection or fails with a urllib3 error -- never hangs half-way
 Settles == pc = "end" => \A r \in Rids : outcome[r] \in {"response", "urllib3"}
 
-\* S4 (known finding): every foreign-byte delivery in the class with in-flight tails has this shape:
+\* S4 (historical, deviation ReleaseKeepsUnread): every foreign-byte delivery in the class with in-flight tails has this shape:
 \* the victim was answered on a reused socket whose previous exchange had a tail in flight and whose
 \* response had been released unread/partially read and then dropped by the caller.
 S4Shape(r) == \E p \in 1..(r - 1) :
-                 /\ plan[p].late > 0 /\ ops[p].kind \in {"readk", "release"} /\ ~ops[p].hold
+                 /\ plan[p].late > 0 /\ ops[p].kind \in {"readk", "release", "streamk", "read1"} /\ ~ops[p].hold
                  /\ resp[r].s = resp[p].s
 OnlyOwnBytesButS4 ==
     \A r \in Rids : outcome[r] = "response" =>
